@@ -223,6 +223,11 @@ func (tree *ParserT) parseObject(exec bool) ([]rune, *primitives.DataType, error
 			o.stage++
 
 		case '\n':
+			if o.stage == OBJ_STAGE_VALUE && o.IsValueUndefined() {
+				// `"key":` followed by a line break: the value is on the next line (valid JSON)
+				tree.crLf()
+				continue
+			}
 			err := o.WriteKeyValuePair()
 			if err != nil {
 				return nil, nil, err
